@@ -739,9 +739,9 @@ func (c *compiler) VisitIndexing(e *ast.Indexing) ast.VisitResult {
 	elementPtr, elementType, stringIndexing := c.evaluateAssignableOrReference(e, false)
 
 	if stringIndexing != nil {
-		lhs, lhsTyp, _ := c.evaluate(stringIndexing.Lhs)
-		index, _, _ := c.evaluate(stringIndexing.Index)
-		lhs = c.floatOrByteAsInt(lhs, lhsTyp)
+		lhs, _, _ := c.evaluate(stringIndexing.Lhs)
+		index, indexTyp, _ := c.evaluate(stringIndexing.Index)
+		index = c.floatOrByteAsInt(index, indexTyp) // the index may be a byte
 		c.latestReturn = c.cbb.NewCall(c.ddpstring.indexIrFun, lhs, index)
 		c.latestReturnType = c.ddpchartyp
 		// c.latestIsTemp = false // it is a primitive typ, so we don't care
